@@ -125,7 +125,8 @@ def run(ctx):
         atoms = sorted({a for (ats, val) in rows for (a, t) in ats} | {val[1] for (ats, val) in rows if isinstance(val, tuple)})
         A = [a for a in atoms if "Extensions::get" in a and "is_some" in a]
         B = [a for a in atoms if "contains" in a and "denylist" in a and "method_name" in a]
-        gen_ok = any("Authorized" in (c.full or "") for c in vf.calls() if c.path and c.path.endswith("Extensions::get"))
+        vbodies = [vf] + [F.fns[c.target_id] for c in vf.calls() if c.target_id in F.fns and F.fns[c.target_id].blocks and (F.fns[c.target_id].j.get("output") or "") == "bool"]
+        gen_ok = any("Authorized" in (c.full or "") for vb in vbodies for c in vb.calls() if c.path and c.path.endswith("Extensions::get"))
         ok = len(A) == 1 and len(B) == 1 and len(atoms) == 2 and gen_ok
         if ok:
             for va, vb in itertools.product([False, True], repeat=2):
@@ -341,6 +342,38 @@ def _check_mint_guard(R, F, f, c):
                     ks = {cred_atom(x) for x in alts}
                     if alts and len(ks) == 1:
                         k = ks.pop()
+                if k is None and be[0][0] == "call":
+                    # the guard is a local boolean helper (`if self.is_authorized(request)`): it must compute allow_all OR eq
+                    hs = F.by_name.get(be[0][1]) or []
+                    if len(hs) == 1 and (hs[0].j.get("output") or "") == "bool" and hs[0].blocks:
+                        from terms import _bool_rows_terms
+                        import itertools as _it
+                        rows_t = _bool_rows_terms(hs[0])
+                        atoms_t = {}
+                        okh = True
+                        for atoms_, val_ in rows_t:
+                            for (a_, tr_) in list(atoms_) + ([(val_[1], True)] if isinstance(val_, tuple) else []):
+                                ka = cred_atom(a_)
+                                if ka in ("allow_all", "eq"):
+                                    atoms_t[show(a_)] = ka
+                                elif ka and ka.startswith("bad-comparator"):
+                                    bad.append(ka)
+                                    okh = False
+                                else:
+                                    okh = False
+                        if okh and set(atoms_t.values()) == {"allow_all", "eq"}:
+                            srows = [(tuple((show(a_), tr_) for (a_, tr_) in atoms_), (("atom", show(val_[1]), val_[2]) if isinstance(val_, tuple) else val_)) for atoms_, val_ in rows_t]
+                            names_ = sorted(atoms_t)
+                            good = True
+                            for vals_ in _it.product([False, True], repeat=len(names_)):
+                                asg = dict(zip(names_, vals_))
+                                want_ = any(v for n_, v in asg.items())      # allow_all OR eq
+                                if eval_bool_table(srows, asg) != want_:
+                                    good = False
+                            if good:
+                                true_edges.append((b, s))
+                                kinds |= {"allow_all", "eq"}
+                                continue
                 if k in ("allow_all", "eq"):
                     true_edges.append((b, s))
                     kinds.add(k)
@@ -392,7 +425,7 @@ def _check_allow(R, F):
                 txt.append("%s=%s" % (show(be[0]), be[1]))
                 if "enable_auth" in show(be[0]) and be[1] is False:
                     ok = True
-        R.ob(ok and "start_rpc_server" in f.name, "MINT", c.where(), "MINT|allow-call|%s" % f.name,
+        R.ob(ok, "MINT", c.where(), "MINT|allow-call|%s" % f.name,
              "HttpNonBlockingAuth::allow() is called in %s not under `enable_auth == false` (deps: %s)" % (f.name, txt),
              sample={"rule": "MINT allow()", "caller": f.name, "deps": txt})
     # new(user, pass) receives the configured credentials
